@@ -216,7 +216,7 @@ type readRes struct {
 
 // runHistory executes one history. tick is the length of one model step (two half ticks);
 // settle waits until the system has reacted (synctest.Wait in a bubble, a short sleep otherwise).
-func runHistory(tr *vrt.Tracer, name string, ops []rdlOp, tick time.Duration, settle func()) { //nolint:cyclop
+func runHistory(tr *vrt.Tracer, name string, ops []rdlOp, tick time.Duration, settle func(), realtime bool) { //nolint:cyclop
 	a := newAdapter(name)
 	settle()
 	base := time.Now()
@@ -249,7 +249,20 @@ func runHistory(tr *vrt.Tracer, name string, ops []rdlOp, tick time.Duration, se
 		default:
 		}
 	}
+	advanceTo := func(nk int) {
+		k = nk
+		time.Sleep(time.Until(base.Add(time.Duration(k) * tick)))
+		settle()
+		tr.Emit(vrt.M{"ev": "adv", "now": 2 * k})
+	}
 	for _, op := range ops {
+		// real-time runs drift away from the even instant while operations are performed: once a
+		// quarter of a tick has gone by, move on to the next even instant so that no action comes
+		// near a deadline (placed at odd half-ticks)
+		if realtime && time.Since(base.Add(time.Duration(k)*tick)) > tick/4 {
+			advanceTo(k + 1)
+			collect()
+		}
 		switch op.Op {
 		case "S":
 			var t time.Time
@@ -271,12 +284,7 @@ func runHistory(tr *vrt.Tracer, name string, ops []rdlOp, tick time.Duration, se
 			a.setDL(t)
 			tr.Emit(vrt.M{"ev": "setdl", "t": mt, "at": at})
 		case "A":
-			k++
-			time.Sleep(time.Until(base.Add(time.Duration(k) * tick)))
-			settle()
-			// the read may have returned during the sleep: report it before the clock event is
-			// consumed only if it happened at an earlier instant; the model orders by content
-			tr.Emit(vrt.M{"ev": "adv", "now": 2 * k})
+			advanceTo(k + 1)
 		case "Arr":
 			narr++
 			if a.arrive(narr, pending) {
@@ -359,7 +367,7 @@ func TestVerifRDLVirtual(t *testing.T) {
 				continue // no instant before the start of the run
 			}
 			synctest.Test(t, func(*testing.T) {
-				runHistory(tr, name, ops, 100*time.Millisecond, synctest.Wait)
+				runHistory(tr, name, ops, 100*time.Millisecond, synctest.Wait, false)
 			})
 		}
 	}
@@ -374,8 +382,125 @@ func TestVerifRDLRealtime(t *testing.T) {
 	hs := loadHistories(t)
 	for _, name := range []string{"vnet", "udp"} {
 		for _, ops := range hs {
-			runHistory(tr, name, ops, 300*time.Millisecond, func() { time.Sleep(25 * time.Millisecond) })
+			runHistory(tr, name, ops, 400*time.Millisecond, func() { time.Sleep(20 * time.Millisecond) }, true)
 		}
 	}
 	t.Logf("histories=%d events=%d", len(hs), tr.N)
+}
+
+// TestVerifRDLBoundary: the deadline is cleared or moved at the very instant it expires, so that
+// the expiry callback of the old timer and the setter race.  Afterwards only the new setting counts:
+// no deadline (reads wait for data) or the later deadline (data first, then a timeout).
+func TestVerifRDLBoundary(t *testing.T) { //nolint:cyclop
+	tr := vrt.Open()
+	defer tr.Close()
+	reps := vrt.EnvInt("VERIF_REPS", 3)
+	n := 0
+	for _, name := range adapters {
+		for variant := 0; variant < 8; variant++ {
+			for rep := 0; rep < reps; rep++ {
+				clearIt, sleepFirst, yield := variant&1 == 0, variant&2 == 0, variant&4 == 0
+				n++
+				synctest.Test(t, func(*testing.T) {
+					tick := 100 * time.Millisecond
+					half := tick / 2
+					a := newAdapter(name)
+					synctest.Wait()
+					base := time.Now()
+					us := func(t time.Time) int64 { return int64(t.Sub(base) / time.Microsecond) }
+					tr.Emit(vrt.M{"ev": "reset", "adapter": name})
+					var tm *time.Timer
+					if sleepFirst {
+						tm = time.NewTimer(half)
+					}
+					d1 := base.Add(half)
+					a.setDL(d1)
+					tr.Emit(vrt.M{"ev": "setdl", "t": 1, "at": us(d1)})
+					if sleepFirst {
+						<-tm.C
+					} else {
+						time.Sleep(half)
+					}
+					if yield {
+						for i := 0; i < rep; i++ {
+							time.Sleep(0) // let the callback get as far as it can
+						}
+					}
+					tr.Emit(vrt.M{"ev": "adv", "now": 1})
+					var d2 time.Time
+					if clearIt {
+						a.setDL(d2)
+						tr.Emit(vrt.M{"ev": "setdl", "t": 0, "at": 0})
+					} else {
+						d2 = base.Add(3 * half)
+						a.setDL(d2)
+						tr.Emit(vrt.M{"ev": "setdl", "t": 3, "at": us(d2)})
+					}
+					synctest.Wait()
+					time.Sleep(time.Until(base.Add(tick)))
+					synctest.Wait()
+					tr.Emit(vrt.M{"ev": "adv", "now": 2})
+					resCh := make(chan readRes, 1)
+					read := func() {
+						tr.Emit(vrt.M{"ev": "read"})
+						go func() {
+							buf := make([]byte, 64)
+							n, err := a.read(buf)
+							resCh <- readRes{n: n, err: err, at: time.Now(), buf: buf}
+						}()
+						synctest.Wait()
+					}
+					ret := func() bool {
+						select {
+						case r := <-resCh:
+							m := vrt.M{"ev": "ret", "at": us(r.at), "id": 0, "intact": true}
+							switch {
+							case r.err == nil:
+								id, ok := decode(r.buf[:r.n])
+								m["res"], m["id"], m["intact"] = "data", id, ok
+							case isTimeout(r.err):
+								m["res"] = "timeout"
+							default:
+								m["res"] = "error:" + r.err.Error()
+							}
+							tr.Emit(m)
+
+							return true
+						default:
+							return false
+						}
+					}
+					read()
+					pending := !ret()
+					if pending {
+						if a.arrive(1, true) {
+							tr.Emit(vrt.M{"ev": "arrive", "id": 1})
+						}
+						synctest.Wait()
+						pending = !ret()
+					}
+					if !pending {
+						read()
+						pending = !ret()
+					}
+					time.Sleep(time.Until(base.Add(2 * tick)))
+					synctest.Wait()
+					tr.Emit(vrt.M{"ev": "adv", "now": 4})
+					if pending {
+						pending = !ret()
+					}
+					tr.Emit(vrt.M{"ev": "rest"})
+					a.close()
+					if pending {
+						a.setDL(time.Now().Add(-time.Second))
+						select {
+						case <-resCh:
+						case <-time.After(5 * time.Second):
+						}
+					}
+				})
+			}
+		}
+	}
+	t.Logf("runs=%d events=%d", n, tr.N)
 }
